@@ -51,7 +51,10 @@ def oracle(t, d, kw):
 
 def _runs(ctx):
     if not hasattr(ctx, "_runs"):
-        ctx._runs = ss.run_trace_property(ctx, "exits", 300, 3000, 1010, None, mutate_cfg=mutate, fault_kinds=["nan", "inf", "huge"])
+        runs, metas, stats = ss.run_trace_property(ctx, "exits", 300, 3000, 1010, None, mutate_cfg=mutate, fault_kinds=["nan", "inf", "huge"])
+        r2, m2 = ss.budget_sweep(ctx, 1010, 4, 30)
+        stats["budget_sweep_runs"] = len(r2)
+        ctx._runs = (runs + r2, metas + m2, stats)
     return ctx._runs
 
 
@@ -89,7 +92,10 @@ def replay(payload):
         print("replay: fixed case or broken obligation:", rp or payload.get("broken"))
         return 1
     fault = tuple(rp["fault"]) if rp.get("fault") else None
-    prob, kw, d, t = ss.gen_run(dfols, rp["seed"], mutate_cfg=mutate, fault=fault)
+    if len(rp["seed"]) == 5:
+        _seed, prob, kw, d, t, _f = ss.replay_sweep(dfols, rp["seed"])
+    else:
+      prob, kw, d, t = ss.gen_run(dfols, rp["seed"], mutate_cfg=mutate, fault=fault)
     res = oracle(t, d, kw)
     print("replay:", res if res else "property holds on this input now")
     return 1 if res else 0
